@@ -102,6 +102,12 @@ impl Rng {
         v
     }
 
+    /// Random bytes of random length 0..max_len (exclusive).
+    pub fn rbytes(&mut self, max_len: usize) -> Vec<u8> {
+        let n = self.below(max_len.max(1));
+        self.bytes(n)
+    }
+
     pub fn shuffle<T>(&mut self, xs: &mut [T]) {
         for i in (1..xs.len()).rev() {
             let j = self.below(i + 1);
